@@ -87,7 +87,11 @@ impl Proc {
     /// address in `probe_addrs` accepts connections.
     pub fn start(bin: &Path, args: &[String], env: &[(String, String)], probe_addrs: &[String], wait: Duration) -> Result<Proc, String> {
         let mut cmd = Command::new(bin);
-        cmd.args(args).env_clear().env("RUST_LOG", "warn").env("PATH", "/usr/bin:/bin");
+        // the log level is part of the operator's environment: varied from start to start (an
+        // explicit RUST_LOG in `env` wins)
+        static STARTS: std::sync::atomic::AtomicUsize = std::sync::atomic::AtomicUsize::new(0);
+        let level = ["warn", "info", "debug", "error", "trace"][STARTS.fetch_add(1, std::sync::atomic::Ordering::SeqCst) % 5];
+        cmd.args(args).env_clear().env("RUST_LOG", level).env("PATH", "/usr/bin:/bin");
         if let Ok(tz) = std::env::var("TZ") {
             cmd.env("TZ", tz);
         }
